@@ -1709,8 +1709,14 @@ fn build_c18(f: &C18Font) -> C18Built {
     match f {
         C18Font::Seac(s) => build_c18_seac(s),
         C18Font::Gen(c) => {
-            let b = c18::build(c);
+            // half of the fonts use a non-canonical (but legal) container layout of the C18
+            // builder: header padding, wide offSizes, reordered DICT operators, gaps, ...
+            let lseed = if c.seed & 1 == 1 { Some(c.seed.rotate_left(17) ^ 0x9E37_79B9_7F4A_7C15) } else { None };
+            let b = c18::build_with(c, &c18::layout_of(lseed));
             let mut classes: Vec<String> = b.classes.iter().map(|c| format!("c18gen:{}", c)).collect();
+            if lseed.is_some() {
+                classes.push("c18gen:non-canonical-layout".to_string());
+            }
             classes.push(
                 match (c.kind, c.variable) {
                     (c18::Kind::NameKeyed, _) => "c18gen:name-keyed",
